@@ -33,11 +33,14 @@ Oracle   rv.ref.c37_link.RxModel, written from the statement:
            bounded progress: the advertisement is complete within 120 cycles in which source.ready was high; at the
              end of the session (traffic stopped, ready lines released) every obligation is met within 300 such
              cycles: all LGOOD / LBAD sent, every accepted header offered, #LCRD = 4 + #consumed.
-Known finding (see findings/C37.md): a header whose HPSTART directly follows the last word of the previous header is not
-         seen by RawHeaderPacketReceiver.  Only 2 % of the sessions allow such back-to-back headers (the sink driver
-         otherwise keeps one non-framing word between headers); once one has been put on the wire the session is
-         tainted and any violation in it is reported as `header_missed_back_to_back` (the case goes on with the next
-         session).
+Configuration: buffer_count is drawn per case from {4 (half of the cases), 1, 2, 8}; credits are judged against the configured
+         count (k-th LCRD has index k mod count, #LCRD <= count + #consumed, the advertisement has `count` LCRDs).  35 % of the
+         sessions allow back-to-back headers (HPSTART right after the last word of the previous header; fixed in b37ac63 and
+         judged like everything else).  In 40 % of the retries the LRTY follows the previous header without an idle word and
+         the re-sent headers follow the LRTY directly (`retry_received` then falls 1-3 cycles after the command word, i.e.
+         around the moment the previous, ignored header is reported by the raw receiver).
+         Buffer counts that are not a power of two are not generated: the class sizes its pointers with range(count) and
+         lets them wrap naturally (3 -> LCRD "D", buffer index 3), i.e. it only supports powers of two; USB 3.2 fixes 4.
 Not judged: recovery_required / bad_packet_received / packet_received strobes, LRTY / LUP / LXU contents and order,
          truncated headers (HPSTART inside a header is never generated), latency of anything (only order and the
          final bound), behaviour when the partner overruns its credits (never generated).
@@ -58,7 +61,8 @@ REQUIRED_BINS = ["hdr_accepted", "hdr_bad_crc16", "hdr_bad_crc5", "hdr_bad_both"
                  "lcrd_wrap", "decoy_framing", "decoy_repeat_previous", "bubble_in_header", "source_backpressure",
                  "command_word_stalled", "lgood_done_in_accept_window", "pop_in_accept_window", "lcrd_done_at_pop",
                  "retry_resends_1", "retry_resends_3", "second_corruption_in_retry", "corrupt_bit_dw012", "corrupt_bit_crc16",
-                 "corrupt_bit_crc5", "corrupt_bit_seq", "corrupt_bit_lcw", "interference_lrty", "queue_ready_without_valid"]
+                 "corrupt_bit_crc5", "corrupt_bit_seq", "corrupt_bit_lcw", "interference_lrty", "queue_ready_without_valid",
+                 "header_back_to_back", "lrty_right_after_header", "buffer_count_1", "buffer_count_2", "buffer_count_4", "buffer_count_8"]
 REQUIRED_EVENTS = ["cycles_monitored", "headers_on_sink", "headers_judged", "link_commands_decoded", "lgood_checked",
                    "advert_lgood_checked", "advert_complete", "lcrd_for_freed_buffer_checked", "lbad_checked",
                    "headers_consumed", "queue_valid_cycles_compared", "retry_received_strobes", "partner_retries",
@@ -67,7 +71,8 @@ ASSUMPTIONS = ["the link partner respects credits and the retry protocol (LRTY o
                "retry_received is pulsed >= 3 cycles after the end of the previous header and before the first re-sent header starts",
                "header framing is intact (HPSTART + four data words); only the 16 bytes behind HPSTART are damaged",
                "latencies are not constrained; bounded progress is judged for the advertisement (120 PHY-ready cycles) and once at the end of the session (300 PHY-ready cycles)",
-               "98 % of the sessions keep at least one non-framing word between two header packets (back-to-back headers: known finding)"]
+               "retry_received never falls in the cycle in which a not-ignored corrupted header is reported (a partner cannot answer an LBAD that was not sent yet)",
+               "truncated headers / framing errors inside a header are not generated (the statement decides nothing for them)"]
 
 PROFILES = {
     #            p_corrupt p_decoy p_noise p_interf gap   burst
@@ -84,14 +89,14 @@ class Holder:
     eng = None
 
 
-def build(max_cycles):
+def build(max_cycles, nbuf=4):
     """The real receiver inside a ResetInserter (so that one elaboration -- 2 s -- serves several sessions)."""
     from amaranth import Elaboratable, Module, Signal, ResetInserter
     from luna.gateware.usb.usb3.link.receiver import HeaderPacketReceiver
 
     class Wrap(Elaboratable):
         def __init__(self):
-            self.dut = HeaderPacketReceiver()
+            self.dut = HeaderPacketReceiver(buffer_count=nbuf)
             self.hard_reset = Signal()
 
         def elaborate(self, platform):
@@ -108,10 +113,10 @@ def build(max_cycles):
     return wrap, b
 
 
-def new_session(wrap, b, rng, res, holder):
+def new_session(wrap, b, rng, res, holder, nbuf=4):
     """power-on reset of the DUT, fresh engine (model, partner, monitors)"""
     from rv.ref.c37_link import Engine
-    eng = Engine(wrap.dut, b, rng, res, PROPERTY)
+    eng = Engine(wrap.dut, b, rng, res, PROPERTY, nbuf=nbuf)
     holder.eng = eng
     b.set(wrap.hard_reset, 1)
     yield
@@ -155,7 +160,7 @@ def directed_fill(eng, rng, res, bubbles):
     keep_q = eng.q_profile
     eng.q_profile = ("never",)
     n = 0
-    while n < 200 and not eng.dead and len(eng.model.fifo) < 4:
+    while n < 200 and not eng.dead and len(eng.model.fifo) < eng.nbuf:
         if eng.p_lbads:
             yield from eng.do_retry(0.0, bubbles)
         elif eng.can_send_new() and not eng.txq:
@@ -276,17 +281,23 @@ def draw_cfg(rng):
         "q": rng.choice(READY),
         "filler_invalid_p": rng.choice([0.0, 0.0, 0.2, 0.6]),
         "filler_garbage": rng.random() < 0.7,
-        "allow_b2b": rng.random() < 0.02,
+        "allow_b2b": rng.random() < 0.35,
     }
 
 
 SESSIONS = 5
 
 
-def run_case(rng, tier, res):
-    wrap, b = build(SESSIONS * 16000)
+BUFFER_COUNTS = [4, 4, 4, 4, 4, 4, 4, 4, 1, 1, 2, 2, 2, 8, 8, 8]      # powers of two only, see docstring
+
+
+def run_case(rng, tier, res, nbuf=None):
+    nbuf = nbuf or rng.choice(BUFFER_COUNTS)
+    wrap, b = build(SESSIONS * 16000, nbuf)
     holder = Holder()
-    res.desc = {"sessions": []}
+    res.desc = {"buffer_count": nbuf, "sessions": []}
+    res.sig("buffer_count", nbuf)
+    res.bin("buffer_count_%d" % nbuf)
     ends = []
 
     def main():
@@ -294,7 +305,7 @@ def run_case(rng, tier, res):
             cfg = draw_cfg(rng)
             res.desc["sessions"].append(cfg)
             res.sig(sorted(cfg.items()))
-            eng = yield from new_session(wrap, b, rng, res, holder)
+            eng = yield from new_session(wrap, b, rng, res, holder, nbuf)
             eng.src_profile = cfg["src"]
             eng.q_profile = cfg["q"]
             eng.filler_invalid_p = cfg["filler_invalid_p"]
